@@ -145,6 +145,9 @@ func checkC04(w *World, r *Report) {
 	r.Rule("R04.19", "a literal needs its closing quote: LexLiteral reaches its LITERAL return only when the closing quote was seen or through ConstructToken, which reports a missing terminator", 1)
 	r.guard("R04.19", func() { c04LiteralClosed(w, r) })
 
+	r.Rule("R04.20", "end of input is signalled only when the input is exhausted: the lexer never returns a decoded rune equal to the end marker (a NUL character is an invalid character, not the end of the expression)", 1)
+	r.guard("R04.20", func() { c04NoFalseEOF(w, r) })
+
 	r.Rule("R04.10", "number tokens: the characters LexNum collects are a subset of XPath Number's alphabet {0-9 .}", 1)
 	r.guard("R04.10", func() {
 		f := w.Method("xpath", "CommonLex", "LexNum")
